@@ -246,3 +246,7 @@ def run(repo: Repo, rep: Report, tier: str) -> None:
     # ---------------- R8 ---------------------------------------------------------------
     from .shared import borrow as _borrow12b
     _borrow12b(repo, rep, "C15", "C15-R12", "C12-R8", "a call made by one computation leaves nothing behind for the next: the parameters bound for the call are unbound after it", floor=1)
+
+    # ---------------- R9 ---------------------------------------------------------------
+    _borrow12b(repo, rep, "C15", "C15-R3", "C12-R9", "two expansions of one declaration never share a memory cell: a re-declaration is recognised because the builder indexes every node",
+               select=lambda o: "indexes every node" in o.construct or "memory id" in o.construct, floor=2)
